@@ -629,6 +629,9 @@ impl W2Scenario {
         if serde_json::to_string(&case.problem["fleet"]).map(|t| t.contains("\"reloads\"")).unwrap_or(false) {
             sig_base.push("reloads".to_string());
         }
+        if case.problem["fleet"].get("resources").is_some() {
+            sig_base.push("shared-resource".to_string());
+        }
         if let Some(f) = features {
             for n in f.names() {
                 rec.count(&format!("features.{n}"), 1);
